@@ -2,7 +2,7 @@
 # tools/thorough.sh [ids...] - thorough tier of the given checks (default: all), one after another
 HERE="$(cd "$(dirname "$0")/.." && pwd)"
 cd "$HERE"
-IDS="${*:-C01 C02 C04 C19 C06 C10 C11 C14 C15 C17 C13 C12 C16 C20 C08 C09 C03 C05 C18 C07}"
+IDS="${*:-C06 C10 C11 C14 C15 C17 C13 C12 C16 C20 C08 C09 C03 C05 C18 C07 C01 C02 C04 C19}"
 for id in $IDS; do
   start=$(date +%s)
   ./check $id --tier thorough > "thorough_$id.log" 2>&1
